@@ -67,6 +67,10 @@ func (s *Source) Read(p []byte) (int, error) {
 		return 0, nil
 	}
 	if s.Pos >= len(s.Data) {
+		if s.FailAt == len(s.Data) && !(s.OneShot && s.Fired) {
+			s.Fired = true
+			return 0, ErrInjected // an error where the end of the data was due
+		}
 		return 0, io.EOF
 	}
 	n := len(p)
